@@ -37,6 +37,20 @@ type Cfg struct {
 	MaxSizePerMsg uint64 `json:"max_size_per_msg"`
 	Members       int    `json:"members"` // initial voters 1..Members
 	Joiner        bool   `json:"joiner"`  // node Members+1 exists, empty, not a member yet
+	// Joiners > 1: nodes Members+1..Members+Joiners exist, empty, not members yet (Joiner is
+	// then true as well; a configuration written before this field existed reads as one joiner)
+	Joiners int `json:"joiners,omitempty"`
+}
+
+// joiners returns the number of empty nodes that exist next to the initial members.
+func (c *Cfg) joiners() int {
+	if c.Joiners > 0 {
+		return c.Joiners
+	}
+	if c.Joiner {
+		return 1
+	}
+	return 0
 }
 
 // Budget bounds the events of one run; it is part of the box definition.
@@ -52,10 +66,12 @@ type Budget struct {
 	Transfers   int    `json:"transfers"`
 	Expires     int    `json:"lease_expiries"` // pass 2 only
 	Delays      int    `json:"delays"`         // messages (or duplicates) parked outside the FIFO pool
+	Lags        int    `json:"lags,omitempty"`    // lag(n): the application of n starts applying asynchronously
+	Applies     int    `json:"applies,omitempty"` // apply(n): one held page of committed entries applied + Advance
 }
 
 type used struct {
-	Proposals, Drops, Dups, Crashes, Heartbeats, Compacts, ConfChanges, Transfers, Expires, Delays uint8
+	Proposals, Drops, Dups, Crashes, Heartbeats, Compacts, ConfChanges, Transfers, Expires, Delays, Lags, Applies uint8
 }
 
 // Event kinds.
@@ -83,15 +99,29 @@ const (
 	evDelay
 	evDupDelay
 	evRelease
+	// Apply lag. Everywhere else a node's library call and the complete handling of the Ready
+	// structs it produces are one transition, so applied == committed in every state. A node
+	// in lag mode (evLag) applies asynchronously, like an application whose state machine is
+	// slower than its raft loop: a Ready that carries CommittedEntries is persisted and its
+	// messages are sent, but the committed page and the Advance are held. While a Ready is
+	// held the RawNode keeps stepping messages, ticking, campaigning and accepting proposals
+	// (etcd's node.run accepts recvc / tickc / propc while it waits for advancec) but hands
+	// out no further Ready: whatever it wants to send or persist stays inside it. evApply
+	// applies the held page, calls Advance and resumes the Ready loop up to the next Ready
+	// with committed entries, which is held again. evUnlag leaves lag mode (applies what is
+	// held and runs the Ready loop to completion).
+	evLag
+	evApply
+	evUnlag
 	evKinds
 )
 
 var evNames = [...]string{"deliver", "drop", "dup", "campaign", "heartbeat", "propose", "crash", "restart", "compact", "proposeConf", "transferLeader", "leaseExpire", "isolate",
-	"delay", "dupDelayed", "release"}
-var evShort = [...]string{"D", "X", "U", "C", "H", "P", "K", "R", "S", "F", "T", "E", "I", "Y", "V", "Z"}
+	"delay", "dupDelayed", "release", "lag", "apply", "unlag"}
+var evShort = [...]string{"D", "X", "U", "C", "H", "P", "K", "R", "S", "F", "T", "E", "I", "Y", "V", "Z", "L", "A", "N"}
 
 // Conf-change variants (A field of evConf). "J" is the joiner id (Members+1), "L" the last
-// initial member (Members).
+// initial member (Members), "J2" the second joiner (Members+2, only with Cfg.Joiners >= 2).
 const (
 	ccAddV1 uint16 = iota
 	ccRemoveV1
@@ -99,10 +129,11 @@ const (
 	ccJointImplicit // {add J, remove L}, auto-leave
 	ccJointExplicit // {add J, remove L}, explicit leave needed
 	ccLeaveJoint    // empty ConfChangeV2
+	ccAddV1Second   // add J2
 	ccVariants
 )
 
-var ccNames = [...]string{"addV1(J)", "removeV1(L)", "addLearnerV2(J)", "jointImplicit(+J,-L)", "jointExplicit(+J,-L)", "leaveJoint"}
+var ccNames = [...]string{"addV1(J)", "removeV1(L)", "addLearnerV2(J)", "jointImplicit(+J,-L)", "jointExplicit(+J,-L)", "leaveJoint", "addV1(J2)"}
 
 // Event is one transition label. N is the node the event acts on (receiver for deliver),
 // A is the message sequence number (deliver/drop/dup), the variant (proposeConf) or the
@@ -128,6 +159,9 @@ const (
 	inRestart
 	inCompact
 	inExpire
+	inLag
+	inApply
+	inUnlag
 )
 
 // input is one entry of a node's private input history. A node's state is a deterministic
@@ -160,6 +194,7 @@ type effects struct {
 	snapIgnored bool   // Ready carried a snapshot the storage refused (ErrSnapOutOfDate)
 	snapIdx     uint64 // index of that snapshot (either case)
 	snapBelow   uint64 // snapIgnored / obsolete: the applied index the snapshot did not exceed
+	pages       int    // held pages of committed entries applied by this input (apply / unlag)
 	panicVal    string
 	panicStack  string
 }
@@ -182,6 +217,13 @@ type live struct {
 	// that produces) a state different from "the committed prefix up to its index" is caught,
 	// not only a wrong (index, term) boundary.
 	appDigest digest
+
+	// apply lag (see evLag): in lag mode a Ready with committed entries is persisted and sent
+	// but not applied and not advanced; it is kept here. No Ready() call is made while one is
+	// held. lag survives a crash (it describes the application, not the RawNode), held does
+	// not.
+	lag  bool
+	held *raft.Ready
 }
 
 type digest [8]byte
@@ -372,27 +414,52 @@ func (n *live) pump(eff *effects) {
 			}
 			eff.msgs = append(eff.msgs, outMsg{m, enc})
 		}
-		for _, e := range rd.CommittedEntries {
-			eff.applied = append(eff.applied, appliedEnt{e.Index, e.Term, e.Type, e.Data})
-			n.appDigest = n.appDigest.next(e.Index, e.Term, e.Type, e.Data)
-			switch e.Type {
-			case pb.EntryConfChange:
-				var cc pb.ConfChange
-				if err := cc.Unmarshal(e.Data); err != nil {
-					panic(err)
-				}
-				n.confState = *n.rn.ApplyConfChange(cc)
-			case pb.EntryConfChangeV2:
-				var cc pb.ConfChangeV2
-				if err := cc.Unmarshal(e.Data); err != nil {
-					panic(err)
-				}
-				n.confState = *n.rn.ApplyConfChange(cc)
-			}
-			n.appliedIdx = e.Index
+		if n.lag && len(rd.CommittedEntries) > 0 {
+			// slow applier: everything up to here (persist, install a snapshot, send) is
+			// done, the committed page and the Advance wait for apply(n) / unlag(n)
+			n.held = &rd
+			return
 		}
+		n.applyPage(&rd, eff, false)
 		n.rn.Advance(rd)
 	}
+}
+
+// applyPage applies the committed entries of a Ready to the application state. A held page
+// is applied like raftexample's entriesToApply / publishEntries do it: entries at or below the
+// applied index (the application may have loaded a snapshot in the meantime) are skipped.
+func (n *live) applyPage(rd *raft.Ready, eff *effects, wasHeld bool) {
+	for _, e := range rd.CommittedEntries {
+		if wasHeld && e.Index <= n.appliedIdx {
+			continue
+		}
+		eff.applied = append(eff.applied, appliedEnt{e.Index, e.Term, e.Type, e.Data})
+		n.appDigest = n.appDigest.next(e.Index, e.Term, e.Type, e.Data)
+		switch e.Type {
+		case pb.EntryConfChange:
+			var cc pb.ConfChange
+			if err := cc.Unmarshal(e.Data); err != nil {
+				panic(err)
+			}
+			n.confState = *n.rn.ApplyConfChange(cc)
+		case pb.EntryConfChangeV2:
+			var cc pb.ConfChangeV2
+			if err := cc.Unmarshal(e.Data); err != nil {
+				panic(err)
+			}
+			n.confState = *n.rn.ApplyConfChange(cc)
+		}
+		n.appliedIdx = e.Index
+	}
+}
+
+// releaseHeld applies the held page and advances the held Ready.
+func (n *live) releaseHeld(eff *effects) {
+	rd := n.held
+	n.held = nil
+	n.applyPage(rd, eff, true)
+	eff.pages++
+	n.rn.Advance(*rd)
 }
 
 func (n *live) confChange(v uint16) pb.ConfChangeI {
@@ -401,6 +468,8 @@ func (n *live) confChange(v uint16) pb.ConfChangeI {
 	switch v {
 	case ccAddV1:
 		return pb.ConfChange{Type: pb.ConfChangeAddNode, NodeID: j}
+	case ccAddV1Second:
+		return pb.ConfChange{Type: pb.ConfChangeAddNode, NodeID: j + 1}
 	case ccRemoveV1:
 		return pb.ConfChange{Type: pb.ConfChangeRemoveNode, NodeID: l}
 	case ccAddLearner:
@@ -418,14 +487,27 @@ func (n *live) confChange(v uint16) pb.ConfChangeI {
 }
 
 // feed applies one input to the node: one call into the library plus the complete handling
-// of the Ready structs it produces.
+// of the Ready structs it produces - unless the node holds a Ready (apply lag): then the
+// library is called and nothing else happens until apply / unlag.
 func (n *live) feed(in *input) (eff effects) {
 	defer catch(&eff)
 	switch in.k {
 	case inCrash:
+		// a held Ready is lost with the RawNode; what the application has applied stays
 		n.rn = nil
+		n.held = nil
 		n.alive = false
 		return
+	case inLag:
+		n.lag = true
+		return
+	case inApply:
+		n.releaseHeld(&eff)
+	case inUnlag:
+		n.lag = false
+		if n.held != nil {
+			n.releaseHeld(&eff)
+		}
 	case inRestart:
 		n.restart()
 	case inCompact:
@@ -462,7 +544,9 @@ func (n *live) feed(in *input) (eff effects) {
 		if n.cfg.CheckQuorum || n.cfg.PreVote {
 			pinElectionTimeout(n.rn)
 		}
-		n.pump(&eff)
+		if n.held == nil {
+			n.pump(&eff)
+		}
 	}
 	return
 }
@@ -502,7 +586,7 @@ type node struct {
 	id     uint64
 	h      hist
 	parent *node         // history (nil at boot and after a crash, where img takes over)
-	in     input         // the input that led from parent to this node
+	inp    input         // the input that led from parent to this node
 	img    *storageImage // set on a crashed node: the persisted state a restart starts from
 	eff    *effects      // effects of `in`
 
@@ -522,6 +606,17 @@ type node struct {
 	votes    []voteRec
 	elapsed  int
 	kb       []byte // canonical serialisation of this node (part of the state key)
+
+	// apply lag
+	lag         bool   // the application applies asynchronously (survives a crash)
+	held        bool   // a Ready is held: persisted and sent, neither applied nor advanced
+	heldLo      uint64 // index range of the held page of committed entries
+	heldHi      uint64
+	heldSum     digest // hash over the held page (index, term, type, data of every entry)
+	heldEntIdx  uint64 // last of the held Ready's Entries (what Advance will mark stable)
+	heldEntTrm  uint64
+	heldSnapIdx uint64 // index of the held Ready's snapshot (already installed), 0 if none
+	in          inside // held only: what the RawNode has not handed out yet
 }
 
 type voteRec struct {
@@ -530,9 +625,24 @@ type voteRec struct {
 }
 
 func freeze(n *live, parent *node, in *input, eff *effects, h hist) *node {
-	f := &node{cfg: n.cfg, id: n.id, h: h, parent: parent, eff: eff, alive: n.alive, confState: n.confState, appliedIdx: n.appliedIdx, appDigest: n.appDigest}
+	f := &node{cfg: n.cfg, id: n.id, h: h, parent: parent, eff: eff, alive: n.alive, confState: n.confState, appliedIdx: n.appliedIdx, appDigest: n.appDigest, lag: n.lag}
 	if in != nil {
-		f.in = *in
+		f.inp = *in
+	}
+	if rd := n.held; rd != nil && n.rn != nil {
+		f.held = true
+		ce := rd.CommittedEntries
+		f.heldLo, f.heldHi = ce[0].Index, ce[len(ce)-1].Index
+		for i := range ce {
+			f.heldSum = f.heldSum.next(ce[i].Index, ce[i].Term, ce[i].Type, ce[i].Data)
+		}
+		if k := len(rd.Entries); k > 0 {
+			f.heldEntIdx, f.heldEntTrm = rd.Entries[k-1].Index, rd.Entries[k-1].Term
+		}
+		f.heldSnapIdx = rd.Snapshot.Metadata.Index
+		if eff.panicVal == "" {
+			f.in = peekInside(n.rn)
+		}
 	}
 	hs, _, _ := n.st.InitialState()
 	f.hs = hs
@@ -593,6 +703,59 @@ func (n *node) entryAt(i uint64) (*pb.Entry, bool) {
 
 func (n *node) isLeader() bool { return n.alive && n.status.RaftState == raft.StateLeader }
 
+// The three functions below read the log as the RawNode sees it: the persisted entries
+// overlaid by the part it has not handed out yet. They differ from lastIndex / termAt /
+// entryAt only while the node holds a Ready.
+func (n *node) memLastIndex() uint64 {
+	if k := len(n.in.ents); k > 0 {
+		return n.in.ents[k-1].Index
+	}
+	if n.in.snapIdx > 0 {
+		return n.in.snapIdx
+	}
+	return n.lastIndex()
+}
+
+func (n *node) memEntryAt(i uint64) (*pb.Entry, bool) {
+	if n.held && (len(n.in.ents) > 0 || n.in.snapIdx > 0) && i >= n.in.offset {
+		if j := i - n.in.offset; j < uint64(len(n.in.ents)) {
+			return &n.in.ents[j], true
+		}
+		return nil, false
+	}
+	if n.in.snapIdx > 0 && i <= n.in.snapIdx {
+		return nil, false
+	}
+	return n.entryAt(i)
+}
+
+func (n *node) memTermAt(i uint64) (uint64, bool) {
+	if n.in.snapIdx > 0 && i == n.in.snapIdx {
+		return n.in.snapTrm, true
+	}
+	if e, ok := n.memEntryAt(i); ok {
+		return e.Term, true
+	}
+	if n.in.snapIdx > 0 && i < n.in.snapIdx {
+		return 0, false
+	}
+	return n.termAt(i)
+}
+
+// backlogConf returns the size of the apply backlog (committed - applied, as the library
+// sees it) and the number of configuration changes in it.
+func (n *node) backlogConf() (backlog, confs int) {
+	if !n.alive || n.status.Commit <= n.status.Applied {
+		return 0, 0
+	}
+	for i := n.status.Applied + 1; i <= n.status.Commit; i++ {
+		if e, ok := n.memEntryAt(i); ok && e.Type != pb.EntryNormal {
+			confs++
+		}
+	}
+	return int(n.status.Commit - n.status.Applied), confs
+}
+
 // ---------------------------------------------------------------------------- sim
 
 // sim owns the real objects. exec(f, in) returns the observation of node f after one more
@@ -640,7 +803,7 @@ func nextHist(h hist, in *input) hist {
 }
 
 func rootHist(cfg *Cfg, id uint64) hist {
-	s := sha1.Sum([]byte(fmt.Sprintf("boot|%v|%v|%d|%d|%d|%v|%d", cfg.PreVote, cfg.CheckQuorum, cfg.ElectionTick, cfg.MaxSizePerMsg, cfg.Members, cfg.Joiner, id)))
+	s := sha1.Sum([]byte(fmt.Sprintf("boot|%v|%v|%d|%d|%d|%v|%d|%d", cfg.PreVote, cfg.CheckQuorum, cfg.ElectionTick, cfg.MaxSizePerMsg, cfg.Members, cfg.Joiner, cfg.joiners(), id)))
 	var out hist
 	copy(out[:], s[:])
 	return out
@@ -699,12 +862,12 @@ func (s *sim) thaw(f *node) *live {
 	var ins []*input
 	g := f
 	for g.parent != nil {
-		ins = append(ins, &g.in)
+		ins = append(ins, &g.inp)
 		g = g.parent
 	}
 	var n *live
 	if g.img != nil {
-		n = &live{cfg: g.cfg, id: g.id, st: g.img.materialise(), alive: false, confState: g.confState, appliedIdx: g.appliedIdx, appDigest: g.appDigest}
+		n = &live{cfg: g.cfg, id: g.id, st: g.img.materialise(), alive: false, confState: g.confState, appliedIdx: g.appliedIdx, appDigest: g.appDigest, lag: g.lag}
 	} else {
 		n, _ = bootLive(g.cfg, g.id)
 	}
@@ -758,6 +921,11 @@ const (
 	fSnapBehindCompact                    // ... and below the receiver's own snapshot index, at a term the receiver accepts
 	fRestartCompacted                     // restart from a storage that starts at a snapshot
 	fReleased                             // a delayed message was released back into the pool
+	fWhileHeld                            // the event acted on a node that held a Ready (library called, no Ready cycle)
+	fCampaignBacklog                      // campaign on a node whose apply backlog contains committed conf changes
+	fCampaignRefused                      // ... and the library refused to start the election
+	fPageApplied                          // a held page of committed entries was applied (apply / unlag)
+	fCrashHeld                            // crash of a node that held a Ready
 	fFlags             = iota
 )
 
@@ -798,12 +966,22 @@ type cluster struct {
 	nodesArr [6]*node
 }
 
+// maxBacklog is the largest apply backlog (committed - applied) of any live node.
+func (c *cluster) maxBacklog() int {
+	m := 0
+	for _, n := range c.nodes {
+		if n.alive && n.status.Commit > n.status.Applied {
+			if b := int(n.status.Commit - n.status.Applied); b > m {
+				m = b
+			}
+		}
+	}
+	return m
+}
+
 func newCluster(s *sim, cfg *Cfg, bud *Budget, fifo bool) *cluster {
 	c := &cluster{sim: s, cfg: cfg, bud: bud, fifo: fifo}
-	total := cfg.Members
-	if cfg.Joiner {
-		total++
-	}
+	total := cfg.Members + cfg.joiners()
 	for id := 1; id <= total; id++ {
 		n := s.root(cfg, uint64(id))
 		c.nodes = append(c.nodes, n)
@@ -947,6 +1125,9 @@ func (c *cluster) step(e Event) *cluster {
 				}
 			}
 		}
+		if n.held {
+			d.flags |= fWhileHeld
+		}
 		g := c.sim.exec(n, &input{k: inStep, msg: p.m, enc: p.enc})
 		d.nodes[n.id-1] = g
 		d.absorb(g, n, e)
@@ -972,6 +1153,9 @@ func (c *cluster) step(e Event) *cluster {
 		if !n.alive || n.isLeader() || n.status.Term >= c.bud.MaxTerm {
 			return nil
 		}
+		if _, confs := n.backlogConf(); confs > 0 {
+			fl |= fCampaignBacklog
+		}
 		in = input{k: inCampaign}
 	case evHeartbeat:
 		if !n.isLeader() || int(u.Heartbeats) >= c.bud.Heartbeats {
@@ -990,6 +1174,9 @@ func (c *cluster) step(e Event) *cluster {
 			return nil
 		}
 		u.Crashes++
+		if n.held {
+			fl |= fCrashHeld
+		}
 		in = input{k: inCrash}
 	case evRestart:
 		if n.alive {
@@ -1013,7 +1200,10 @@ func (c *cluster) step(e Event) *cluster {
 		}
 		in = input{k: inCompact}
 	case evConf:
-		if !n.isLeader() || int(u.ConfChanges) >= c.bud.ConfChanges || e.A >= ccVariants || !c.cfg.Joiner {
+		if !n.isLeader() || int(u.ConfChanges) >= c.bud.ConfChanges || e.A >= ccVariants || c.cfg.joiners() == 0 {
+			return nil
+		}
+		if e.A == ccAddV1Second && c.cfg.joiners() < 2 {
 			return nil
 		}
 		joint := len(n.status.Config.Voters[1]) > 0
@@ -1037,14 +1227,37 @@ func (c *cluster) step(e Event) *cluster {
 		}
 		u.Expires++
 		in = input{k: inExpire}
+	case evLag:
+		if !n.alive || n.lag || int(u.Lags) >= c.bud.Lags {
+			return nil
+		}
+		u.Lags++
+		in = input{k: inLag}
+	case evApply:
+		if !n.alive || !n.held || int(u.Applies) >= c.bud.Applies {
+			return nil
+		}
+		u.Applies++
+		in = input{k: inApply}
+	case evUnlag:
+		if !n.alive || !n.lag {
+			return nil
+		}
+		in = input{k: inUnlag}
 	default:
 		return nil
+	}
+	if n.held && e.K != evApply && e.K != evUnlag && e.K != evCrash {
+		fl |= fWhileHeld
 	}
 	d := c.clone()
 	d.used = u
 	d.flags = fl
 	g := c.sim.exec(n, &in)
 	d.nodes[n.id-1] = g
+	if fl&fCampaignBacklog != 0 && g.alive && g.status.Term == n.status.Term && g.status.RaftState == n.status.RaftState {
+		d.flags |= fCampaignRefused
+	}
 	d.absorb(g, n, e)
 	return d
 }
@@ -1091,6 +1304,9 @@ func (c *cluster) absorb(n, before *node, e Event) {
 	}
 	if eff.snapApplied {
 		c.flags |= fSnapApplied
+	}
+	if eff.pages > 0 {
+		c.flags |= fPageApplied
 	}
 	c.check(n, before, eff, e)
 }
@@ -1182,6 +1398,8 @@ func (c *cluster) describe(e Event) string {
 				s += " [receiver down: lost]"
 			} else if c.iso != 0 && (c.pool[i].m.To == uint64(c.iso) || c.pool[i].m.From == uint64(c.iso)) {
 				s += " [crosses the partition: lost]"
+			} else if n.held {
+				s += " [receiver holds a Ready: stepped, nothing persisted or sent]"
 			}
 		}
 		return s
@@ -1196,6 +1414,15 @@ func (c *cluster) describe(e Event) string {
 			return "heal()"
 		}
 		return fmt.Sprintf("isolate(%d)", e.N)
+	case evLag:
+		return fmt.Sprintf("lag(%d) [the application of node %d applies asynchronously from now on]", e.N, e.N)
+	case evApply, evUnlag:
+		if n := c.node(uint64(e.N)); n != nil && n.held {
+			return fmt.Sprintf("%s(%d) [applies the held page %d..%d, Advance, Ready loop resumes]", evNames[e.K], e.N, n.heldLo, n.heldHi)
+		}
+	}
+	if n := c.node(uint64(e.N)); n != nil && n.held && e.K != evCrash {
+		return fmt.Sprintf("%s(%d) [node holds a Ready: library called, nothing persisted or sent]", evNames[e.K], e.N)
 	}
 	return fmt.Sprintf("%s(%d)", evNames[e.K], e.N)
 }
@@ -1212,8 +1439,15 @@ func (c *cluster) summary() string {
 			fmt.Fprintf(&b, "  n%d PANICKED  storage: hs=(t%d v%d c%d) applied(app)=%d log=%s\n", n.id, n.hs.Term, n.hs.Vote, n.hs.Commit, n.appliedIdx, descLog(n))
 			continue
 		}
-		fmt.Fprintf(&b, "  n%d %-12s t%d vote=%d lead=%d commit=%d applied=%d log=%s\n", n.id, n.status.RaftState, n.status.Term, n.status.Vote, n.status.Lead,
+		fmt.Fprintf(&b, "  n%d %-12s t%d vote=%d lead=%d commit=%d applied=%d log=%s", n.id, n.status.RaftState, n.status.Term, n.status.Vote, n.status.Lead,
 			n.status.Commit, n.status.Applied, descLog(n))
+		if n.held {
+			fmt.Fprintf(&b, " LAG holds page %d..%d; persisted hs=(t%d v%d c%d); voters=%v; not yet handed out: %d entries, %d messages", n.heldLo, n.heldHi,
+				n.hs.Term, n.hs.Vote, n.hs.Commit, sortedIDs(n.status.Config.Voters[0]), len(n.in.ents), len(n.in.msgs))
+		} else if n.lag {
+			b.WriteString(" LAG")
+		}
+		b.WriteByte('\n')
 	}
 	if c.iso != 0 {
 		fmt.Fprintf(&b, "  node %d is partitioned from the others\n", c.iso)
